@@ -465,3 +465,70 @@ def loop_bounded(body, header, blocks, sources):
                     if r and r[0] not in blocks:
                         return "advances %s on every iteration and exits on None" % p
     return None
+
+
+# --------------------------------------------------------------- magnitudes
+BOUNDED_CALLS = re.compile(r"::(len|count|capacity)$")
+PASS_BOUND = re.compile(r"^std::cmp::min$|::(checked_sub|saturating_sub|wrapping_sub|min|unwrap_or|unwrap_or_default|unwrap_or_else|try_into|into|ok|map|and_then|clone|get|copied|cloned)$|as std::convert::(TryInto|Into|From|TryFrom)<.*>>::\w+$|as std::ops::Try>::branch$")
+
+
+def bounded(body, e, depth=0):
+    """Is the magnitude of this integer expression bounded by the size of an in-memory
+    collection (or a constant)?  min(a,b) needs one bounded side; subtraction keeps the
+    bound of its left side; additions/multiplications and anything read from a JSON number are unbounded."""
+    e = strip_refs(e)
+    if depth > 12:
+        return False
+    k = e[0]
+    if k == "const":
+        return True
+    if k == "cast":
+        return bounded(body, e[2], depth + 1)
+    if k == "phi":
+        return all(bounded(body, x, depth + 1) for x in e[2])
+    if k == "field" and e[1][0] in ("downcast", "binop", "call", "phi"):
+        return bounded(body, e[1] if e[1][0] != "downcast" else e[1][1], depth + 1)
+    if k == "downcast":
+        return bounded(body, e[1], depth + 1)
+    if k == "binop":
+        if e[1] in ("Sub", "SubWithOverflow", "SubUnchecked", "Div", "Rem", "Shr", "BitAnd"):
+            return bounded(body, e[2], depth + 1)
+        return False
+    if k == "call" and e[1]:
+        p = e[1]["path"]
+        if BOUNDED_CALLS.search(p):
+            return True
+        if p == "std::cmp::min" or p.endswith("::min"):
+            return any(bounded(body, a, depth + 1) for a in e[2])
+        if PASS_BOUND.search(p):
+            if p.endswith(("unwrap_or", "unwrap_or_else")):
+                return all(bounded(body, a, depth + 1) for a in e[2] if strip_refs(a)[0] != "agg" or True) if all(strip_refs(a)[0] != "agg" or strip_refs(a)[1].get("agg") != "Closure" for a in e[2]) else bounded(body, e[2][0], depth + 1)
+            return bounded(body, e[2][0], depth + 1) if e[2] else False
+    return False
+
+
+def range_iterations(body):
+    """[(bi, callee path, end-expression)] for iterations over a std Range in `body`."""
+    out = []
+    for bi, t in body.calls():
+        c = callee_of(t)
+        if not c:
+            continue
+        full = c.get("full") or ""
+        if not re.search(r"^<std::ops::Range(Inclusive)?<", full) and "std::ops::Range" not in " ".join((t.get("callee") or {}).get("targs", [])[:1]):
+            continue
+        if not re.search(r"Iterator>::|IntoIterator>::|^std::iter::Iterator::", c["path"]):
+            continue
+        recv = strip_refs(body.xtrace(t["args"][0])) if t["args"] else None
+        rng = None
+
+        def find(x):
+            nonlocal rng
+            if x[0] == "agg" and "Range" in (x[1].get("adt") or "") and rng is None:
+                rng = x
+            return False
+        if recv is not None:
+            expr_mentions(recv, find)
+        if rng is not None and len(rng[2]) >= 2:
+            out.append((bi, c["path"], rng[2][1]))
+    return out
